@@ -365,3 +365,30 @@ type FloatFields struct {
 	M64 map[string]float64
 	M32 map[string]float32
 }
+
+// ---- carriers for C09
+
+type StrCarrier struct {
+	S  string
+	L  []string
+	MK map[string]int32
+	MV map[string]string
+	A  []interface{}
+}
+
+type BinCarrier struct {
+	B  []byte
+	L  [][]byte
+	MV map[string][]byte
+	A  []interface{}
+}
+
+// ---- carriers for C10
+
+type TimeCarrier struct {
+	T  time.Time
+	L  []time.Time
+	M  map[string]time.Time
+	A  []interface{}
+	T2 time.Time
+}
